@@ -2,7 +2,7 @@ use rten_tensor::prelude::*;
 use rten_tensor::{Tensor, TensorView};
 use smallvec::SmallVec;
 
-use crate::graph::{CaptureEnv, Graph, NodeId, RunError, RunOptions};
+use crate::graph::{CaptureEnv, Graph, Node, NodeId, RunError, RunOptions};
 use crate::infer_shapes::InferShapes;
 use crate::operator::{
     OpError, OpRunContext, Operator, OutputList, OutputTypeList, OutputTypesContext,
@@ -16,6 +16,14 @@ use crate::weight_cache::WeightCache;
 
 fn output_list_from_vec(xs: Vec<Value>) -> OutputList {
     xs.into_iter().collect()
+}
+
+/// Return true if all operators in a subgraph are deterministic.
+fn is_deterministic_graph(graph: &Graph) -> bool {
+    graph.iter().all(|(_, node)| match node {
+        Node::Operator(op) => op.operator().is_deterministic(),
+        _ => true,
+    })
 }
 
 pub struct If {
@@ -40,6 +48,10 @@ impl Operator for If {
 
     fn max_outputs(&self) -> Option<usize> {
         None
+    }
+
+    fn is_deterministic(&self) -> bool {
+        is_deterministic_graph(&self.then_branch) && is_deterministic_graph(&self.else_branch)
     }
 
     fn run(&self, _ctx: &OpRunContext) -> Result<OutputList, OpError> {
@@ -138,6 +150,10 @@ impl Operator for Loop {
 
     fn max_outputs(&self) -> Option<usize> {
         None
+    }
+
+    fn is_deterministic(&self) -> bool {
+        is_deterministic_graph(&self.body)
     }
 
     fn run(&self, _ctx: &OpRunContext) -> Result<OutputList, OpError> {
